@@ -104,6 +104,7 @@ def rand_scenario(
     falsy_objects=False,
     poll_kinds=False,
     p_empty_table=0.0,
+    call_kw_drops=False,
 ):
     n = rng.randint(*max_attempts)
     nout = n + 1
@@ -199,6 +200,9 @@ def rand_scenario(
         calls[-1]["abort_after_op"] = extra_abort
         if extra_abort is not None:
             calls[-1]["abort_at"] = None
+        if call_kw_drops and len(calls) > 1 and rng.random() < 0.5:
+            # a later call on the same object that passes fewer per-call sleep arguments than the one before it
+            calls[-1]["drop_call_kw"] = rng.sample(["sleep", "before_sleep", "sleeper"], rng.randint(1, 3))
         if rf_time and cfg.get("strategy_objects"):
             calls[-1]["rf_dur"] = [rng.choice([0.0, 0.0, G, 0.25, 1.0]) for _ in range(nout)]
         if slow_hooks:
@@ -213,6 +217,7 @@ def rand_scenario(
         "via_config": bool(p_via_config and rng.random() < p_via_config),
         "poll_kind": rng.choice(["bool", "int", "str", "obj"]) if poll_kinds else "bool",
         "poll": rng.random() < 0.15,
+        "ctx_decoy": rng.random() < 0.35,  # context-manager entries only: a second context object alive at the same time
         "calls": calls,
         "fault": None,
     }
